@@ -1,1 +1,66 @@
-// placeholder
+//! Hooked into `rust/src/step_sim_numpy.rs`.  C19 array layouts of `StepEnvNumpy`.
+#![allow(dead_code)]
+#![allow(clippy::all)]
+#![cfg(kani)]
+use super::*;
+use crate::step_sim::verif_proofs::{any_l2, copy_l2, documented_prefix};
+use crate::verif::*;
+use bourse_book::types::Level2Data;
+use bourse_book::verif::src::*;
+use bourse_book::{vcheck, vcover};
+
+pub fn any_numpy_env() -> (StepEnvNumpy, Level2Data<10>, u32) {
+    let mut env = BaseEnv::new(any_u64(), 1, any_u64(), any_bool());
+    let d = any_l2();
+    let keep = copy_l2(&d);
+    env.verif_set_level_2_data(d);
+    let tv = any_u32();
+    env.verif_book_mut().verif_set_trade_vol(tv);
+    (StepEnvNumpy { env, rng: Xoroshiro128StarStar::seed_from_u64(0) }, keep, tv)
+}
+
+#[kani::proof]
+#[kani::unwind(12)]
+#[kani::stub(numpy::PyArray::from_slice, stub_from_slice)]
+pub fn c19_numpyenv_level_1_data() {
+    let (se, d, tv) = any_numpy_env();
+    let py = unsafe { Python::assume_gil_acquired() };
+    let _ = se.level_1_data(py);
+    let (a, n, calls) = recorded();
+    vcheck!(calls == 1, "ARRAY.one_array_built");
+    vcheck!(n == 9, "ARRAY.level_1_array_has_the_documented_length_9");
+    let want = documented_prefix(&d, tv);
+    vcheck!(n < 1 || a[0] == want[0], "ARRAY.element_0_is_trade_volume");
+    vcheck!(n < 3 || (a[1] == want[1] && a[2] == want[2]), "ARRAY.elements_1_2_are_bid_and_ask_touch_price");
+    vcheck!(n < 5 || (a[3] == want[3] && a[4] == want[4]), "ARRAY.elements_3_4_are_bid_then_ask_total_volume");
+    vcheck!(n < 9 || (a[5] == d.bid_price_levels[0].0 && a[6] == d.bid_price_levels[0].1 && a[7] == d.ask_price_levels[0].0 && a[8] == d.ask_price_levels[0].1),
+        "ARRAY.elements_5_8_are_bid_touch_volume_count_then_ask_touch_volume_count");
+    core::mem::forget(se);
+}
+
+#[kani::proof]
+#[kani::unwind(12)]
+#[kani::stub(numpy::PyArray::from_slice, stub_from_slice)]
+pub fn c19_numpyenv_level_2_data() {
+    let (se, d, tv) = any_numpy_env();
+    let py = unsafe { Python::assume_gil_acquired() };
+    let _ = se.level_2_data(py);
+    let (a, n, calls) = recorded();
+    vcheck!(calls == 1, "ARRAY.one_array_built");
+    vcheck!(n == 45, "ARRAY.level_2_array_has_the_documented_length_45");
+    let want = documented_prefix(&d, tv);
+    vcheck!(n < 1 || a[0] == want[0], "ARRAY.element_0_is_trade_volume");
+    vcheck!(n < 3 || (a[1] == want[1] && a[2] == want[2]), "ARRAY.elements_1_2_are_bid_and_ask_touch_price");
+    vcheck!(n < 5 || (a[3] == want[3] && a[4] == want[4]), "ARRAY.elements_3_4_are_bid_then_ask_total_volume");
+    let mut ok = n == 45;
+    let mut l = 0;
+    while l < 10 {
+        if n == 45 {
+            ok &= a[5 + 4 * l] == d.bid_price_levels[l].0 && a[6 + 4 * l] == d.bid_price_levels[l].1;
+            ok &= a[7 + 4 * l] == d.ask_price_levels[l].0 && a[8 + 4 * l] == d.ask_price_levels[l].1;
+        }
+        l += 1;
+    }
+    vcheck!(ok, "ARRAY.per_level_block_is_bid_volume_bid_count_ask_volume_ask_count");
+    core::mem::forget(se);
+}
